@@ -30,6 +30,21 @@ def poly_fits(coef_desc, p, q, nmax):
     return True
 
 
+def knotset(r, n, lo, hi):
+    """n increasing integer knots; often strongly non-uniform: a cluster of unit-spaced knots and one long interval (last,
+    first or in the middle), where a lookup that assumes uniform spacing is far off"""
+    if n < 3 or r.random() < 0.5:
+        return sorted(r.sample(range(lo, hi), n))
+    gap = r.randint(2 * n, 6 * n)
+    at = r.choice([n - 1, n - 1, 1, r.randint(1, n - 1)])      # index of the knot that follows the long interval
+    ks, x = [], r.randint(-3, 3)
+    for i in range(n):
+        if i:
+            x += gap if i == at else r.choice([1, 1, 2])
+        ks.append(x)
+    return ks
+
+
 def generate(tier, seed):
     r = random.Random(seed)
     cases = []
@@ -72,9 +87,12 @@ def generate(tier, seed):
         m = (deg + 1) // 2
         for _ in range(20 * reps):
             n = r.randint(2 * m, 2 * m + 4) if deg > 1 else r.randint(2, 6)
-            knots = sorted(r.sample(range(-6, 9), n))
+            knots = knotset(r, n, -6, 9)
             co = [r.randint(-3, 3) for _ in range(r.randint(1, m))]
             q = r.choice(QS); p = r.randint(knots[0] * q, knots[-1] * q)
+            if r.random() < 0.5:       # inside the longest interval
+                i = max(range(1, n), key=lambda i: knots[i] - knots[i - 1])
+                p = r.randint(knots[i - 1] * q, knots[i] * q)
             if deg == 1:        # strictly inside a segment (the slope at a knot is one-sided)
                 p = None
                 for _t in range(20):
@@ -87,16 +105,18 @@ def generate(tier, seed):
             if poly_fits(co, p, q, m) and all(poly_fits(co, k, 1, 0) for k in knots):
                 cases.append({"kind": "spline", "degree": deg, "coef": co, "knots": knots, "p": p, "q": q, "nmax": m, "smooth": r.choice([0, 0, 0, 1, 3])})
     # degree 1 through arbitrary data: the chord; degrees 3, 5, 7 through arbitrary data: the data at the knots
-    for _ in range(40 * reps):
-        n = r.randint(2, 7)
-        knots = sorted(r.sample(range(-6, 9), n)); y = [r.randint(-5, 5) for _ in knots]
+    for _ in range(200 * reps):
+        n = r.randint(2, 10)
+        knots = knotset(r, n, -6, 9); y = [r.randint(-5, 5) for _ in knots]
         seg = r.randint(1, n - 1); q = r.choice([2, 4, 8])
+        if r.random() < 0.5:       # the longest interval
+            seg = max(range(1, n), key=lambda i: knots[i] - knots[i - 1])
         inside = [pp for pp in range(knots[seg - 1] * q + 1, knots[seg] * q)]
         cases.append({"kind": "chord", "degree": 1, "knots": knots, "y": y, "seg": seg, "p": r.choice(inside), "q": q, "nmax": 2, "smooth": 0})
     for deg in (3, 5, 7):
         for _ in range(15 * reps):
             n = r.randint(deg + 1, deg + 6)
-            knots = sorted(r.sample(range(-8, 12), n)); y = [r.randint(-5, 5) for _ in knots]
+            knots = knotset(r, n, -8, 12); y = [r.randint(-5, 5) for _ in knots]
             cases.append({"kind": "interp", "degree": deg, "knots": knots, "y": y, "p": knots[0], "q": 1, "nmax": 0, "smooth": 0})
     return cases
 
@@ -430,7 +450,7 @@ def main():
                 rep.violation("stepfn/value-outside-the-end-values", {"case": c}, "Step value %r outside [%d, %d] for %s" % (o["v"][0], lo, hi, json.dumps(c)))
         elif c["kind"] in ("spline", "chord", "interp"):
             ysc = max(1.0, max(abs(y) for y in c["y"]))
-            tol = 1e-8
+            tol = {1: 1e-10, 3: 1e-9, 5: 1e-8, 7: 1e-6}[c["degree"]]      # GCVSPL's conditioning worsens with the degree on strongly non-uniform knots
             if c["kind"] == "spline":
                 v = [fr(x) for x in w["v"]]
                 how = "smoothed" if c["smooth"] else "interpolating"
@@ -492,7 +512,7 @@ def main():
     if len(rep.violations) > 30:
         rep.violations = rep.violations[:30]
     return rep.finish("model_checking", cov, assumptions=["integer coefficients / parameters, rational arguments p/q with q in {1,2,4,...}; lattice phases for sinusoids",
-                                                          "double compared within 1e-12 (functions), 1e-8 (splines), float within 2e-6, relative to the magnitude of the terms"])
+                                                          "double compared within 1e-12 (functions), 1e-10 .. 1e-6 (splines of degree 1 .. 7), float within 2e-6, relative to the magnitude of the terms"])
 
 
 if __name__ == "__main__":
